@@ -1,9 +1,8 @@
 from driver import Leg
-# PENDING: "[^^..]" (complement class whose first member is '^') is mis-tracked by the bracket scanner added in /repo commit d505481
-# ("[^^]?" does not match "ab").  Reported to the coordinator with a one-line fix.  Until it is repaired the construct is kept out of the
-# generated classes and its regress witnesses are run but not judged; set PENDING = {} to make both a normal part of the check
-# (violations then carry the stable keys exact|class-negated-caret-first, path|class-negated-caret-first, regress|class-negated-caret-first).
-PENDING = {'pending_caretfirst': '1'}
+# "[^^..]" (complement class whose first member is '^') was mis-tracked by the bracket scanner of /repo commit d505481 and repaired in
+# 2e8fd8e; it is a normal part of the generated classes and of the regress witnesses.  (--opt pending_caretfirst=1 would keep the construct
+# out and leave its witnesses unjudged; violations in patterns containing "[^^" carry the stable keys *|class-negated-caret-first.)
+PENDING = {}
 def O(**kw): d = dict(PENDING); d.update(kw); return d
 SPEC = dict(
     level='exploration',
@@ -44,7 +43,7 @@ SPEC = dict(
     min_stats={'regress': {'regress_checks': 190},
                'exact': {'subjects_expected_match': 50000, 'subjects_expected_nomatch': 50000, 'neighbours_expected_nomatch': 10000,
                          'patterns_numeric-range': 500, 'patterns_negated-single': 200, 'patterns_comma-list': 300, 'patterns_single+overescaped': 1500,
-                         'overescaped_literals_glibc_would_read_as_operator': 1000, 'escaped_metachar_literals': 2000, 'node_star': 4000, 'node_class': 4000, 'class_with_metachar_member': 3000, 'class_negated': 1000, 'class_with_rbracket_first': 500, 'class_with_caret_member': 400,
+                         'overescaped_literals_glibc_would_read_as_operator': 1000, 'escaped_metachar_literals': 2000, 'node_star': 4000, 'node_class': 4000, 'class_with_metachar_member': 3000, 'class_negated': 1000, 'class_with_rbracket_first': 500, 'class_with_caret_member': 400, 'class_negated_caret_first': 20,
                          'node_group': 4000, 'empty_alternative_in_group': 1000, 'max_nesting': 3, 'plain_pattern_set_after_negated_pattern': 300,
                          'setpattern_on_reused_matcher': 4000, 'patterns_reported_unique': 400},
                'escape': {'strings': 2500, 'neighbours': 50000, 'strings_with_leading_backtick': 100, 'strings_with_leading_lt': 100,
